@@ -145,9 +145,9 @@ def f32bits(s):
     return "%08x" % struct.unpack(">I", struct.pack(">f", float(s)))[0]
 
 
-def extension_record(rng, local, kind):
+def extension_record(rng, local, kind, prefix=PFX):
     """(element, expected dump token)"""
-    nm = "U:=%s:=%s" % (PFX.encode().hex(), local.encode().hex())
+    nm = "U:=%s:=%s" % (prefix.encode().hex(), local.encode().hex())
     if kind == 0:
         mn = rng.choice(["0.5", "-2", "1000", None]); mx = rng.choice(["8", "1e3", None])
         attrs = [["type", "Float"]] + ([["precision", "double"]] if rng.chance(1, 2) else [])
@@ -169,7 +169,7 @@ def extension_record(rng, local, kind):
         sc = rng.choice(["0.001", "1", "0.5"]); off = rng.choice(["0", "-2.5", "100"])
         attrs = [["type", "ScaledInteger"], ["minimum", str(mn)], ["maximum", str(mx)], ["scale", sc], ["offset", off]]
         tok = "SI:%d:%d:%s:%s" % (mn, mx, f64bits(sc), f64bits(off))
-    return xegen.E(PFX + ":" + local, attrs, [xegen.T("0")] if rng.chance(1, 2) else []), nm + "/" + tok
+    return xegen.E(prefix + ":" + local, attrs, [xegen.T("0")] if rng.chance(1, 2) else []), nm + "/" + tok
 
 
 # ----------------------------------------------------------------------------- the run
@@ -240,17 +240,31 @@ def build_variants(rng, root, bi, base_dump, lookup, batch, exhaustive, budget, 
                 if len(protos) != 1 or any(c[0] != "e" for c in protos[0][3]):
                     continue
                 pr = protos[0]
+                pts = [p for n, p in xegen.elements(pc, True) if n is pr][0]
                 idxs = range(len(pr[3]) + 1) if exhaustive else [rng.below(len(pr[3]) + 1) for _ in range(3)]
+                # where the extension prefix is declared: at the root (the registered prefix), on the record itself,
+                # on prototype / points / the vectorChild, or a second prefix for the registered URI on the prototype
+                LEVELS = ["root", "record", "prototype", "points", "vectorChild", "redeclared"]
                 for i in idxs:
                     for kind in range(4):
-                        local = rng.choice(xegen.RECORD_NAMES) if rng.chance(1, 2) else rng.choice(["quality", "nor", "x-1", "A_b"]) + str(rng.below(50))
-                        rec, tok = extension_record(rng, local, kind)
-                        pr[3].insert(i, rec)
-                        k0 = proto_idx[pi]
-                        exp = toks[:k0] + ["proto=%d" % (int(toks[k0][6:]) + 1)] + toks[k0 + 1:k0 + 1 + i] + [tok] + toks[k0 + 1 + i:]
-                        batch.add("extrec", bi, render_doc(root, pretty), " ".join(exp), "prototype %d index %d record %s" % (pi, i, rec[1]))
-                        pr[3].pop(i)
-                        stats["extension_record_std_names" if local in xegen.RECORD_NAMES else "extension_record_unique_names"] += 1
+                        for level in (LEVELS if exhaustive else [rng.choice(LEVELS), rng.choice(LEVELS[1:])]):
+                            local = rng.choice(xegen.RECORD_NAMES) if rng.chance(1, 2) else rng.choice(["quality", "nor", "x-1", "A_b"]) + str(rng.below(50))
+                            prefix = PFX if level == "root" else "c18q" if level == "redeclared" else "c18x"
+                            rec, tok = extension_record(rng, local, kind, prefix)
+                            decl = None
+                            if level != "root":
+                                target = {"record": rec, "prototype": pr, "points": pts, "vectorChild": pc, "redeclared": pr}[level]
+                                decl = ["xmlns:" + prefix, URI if level == "redeclared" else "urn:c18:local-ext"]
+                                target[2].append(decl)
+                            pr[3].insert(i, rec)
+                            k0 = proto_idx[pi]
+                            exp = toks[:k0] + ["proto=%d" % (int(toks[k0][6:]) + 1)] + toks[k0 + 1:k0 + 1 + i] + [tok] + toks[k0 + 1 + i:]
+                            batch.add("extrec", bi, render_doc(root, pretty), " ".join(exp), "prototype %d index %d record %s prefix declared at %s" % (pi, i, rec[1], level))
+                            pr[3].pop(i)
+                            if decl is not None and target is not rec:
+                                target[2].remove(decl)
+                            stats["extension_record_std_names" if local in xegen.RECORD_NAMES else "extension_record_unique_names"] += 1
+                            stats["extension_decl_levels"][level] = stats["extension_decl_levels"].get(level, 0) + 1
     # ---- (d) the known shapes
     proto = under_prototype(root)
     cands = [(n, p) for n, p in xegen.elements(root, True) if p is not None and id(p) not in proto and n[1] in lookup]
@@ -305,7 +319,7 @@ def direct_oracle(rep, rng, tier):
     lookup = lookup_names()
     assert lookup == set(xegen.STD_NAMES) - {"versionMinor"}, "xegen.STD_NAMES and Spec/XeForeign.lookup_names differ"
     n_small, n_large, budget = (16, 80, 50) if tier == "quick" else (80, 600, 120)
-    stats = dict(positions_swept_exhaustively=0, positions_sampled=0, parents=set(), extension_record_std_names=0, extension_record_unique_names=0)
+    stats = dict(positions_swept_exhaustively=0, positions_sampled=0, parents=set(), extension_record_std_names=0, extension_record_unique_names=0, extension_decl_levels={})
     # base documents that the reader accepts
     trees = []
     tries = 0
@@ -347,7 +361,8 @@ def direct_oracle(rep, rng, tier):
                    variants_per_class=counts, variants_with_changed_dump_per_class=changed,
                    positions_swept_exhaustively=stats["positions_swept_exhaustively"], positions_sampled=stats["positions_sampled"],
                    parents_of_insertions=sorted(stats["parents"]),
-                   extension_record_std_names=stats["extension_record_std_names"], extension_record_unique_names=stats["extension_record_unique_names"])
+                   extension_record_std_names=stats["extension_record_std_names"], extension_record_unique_names=stats["extension_record_unique_names"],
+                   extension_prefix_declared_at=stats["extension_decl_levels"])
     if batch.items:
         it = batch.items[len(batch.items) // 3]
         rep.sample(dict(kind="variant", cls=it[0], note=it[4], xml=it[2].decode("utf-8", "replace")[:300]))
